@@ -131,8 +131,7 @@ Section BT.
               if nVar <? 0 then inr (RFail "runtime error" pos s) else
               match popn (Z.to_nat nVar) ops [] with
               | Some (vargs, rest) =>
-                  let e := Type_value vtype in
-                  let (s1, sv) := new_slice s e (map (fun a => Value_assign a e) vargs) in
+                  let (s1, sv) := variadic_arg s vtype nVar vargs in
                   inl (sv :: rest, xArgs - nVar + 1, s1)
               | None => inr (RStuck "variadic arguments")
               end
@@ -253,6 +252,7 @@ Section BT.
         { destruct (variadic && pack); [|exact H].
           destruct (xa - nargs + 1 <? 0); [exact (Hfail _)|].
           destruct (popn (Z.to_nat (xa - nargs + 1)) ops []) as [[vargs rest]|]; [|exact I].
+          unfold variadic_arg. destruct (xa - nargs + 1 =? 0); [exact H|].
           unfold new_slice, alloc; cbn. exact H. }
         match goal with |- context [match ?p with inl _ => _ | inr _ => _ end] => destruct p as [[[ops1 xa1] s1]|r] end;
           [|exact Hp].
@@ -397,7 +397,10 @@ Section BT.
       destruct (variadic && pack); [|apply Hbody; reflexivity].
       destruct (xa - nargs + 1 <? 0); [intro E; inversion E; subst; left; auto|].
       destruct (popn (Z.to_nat (xa - nargs + 1)) ops []) as [[vargs rest]|]; [|discriminate].
-      apply Hbody. reflexivity.
+      assert (Hb1 : bt (fst (variadic_arg s vtype (xa - nargs + 1) vargs)) = bt s)
+        by (unfold variadic_arg; destruct (xa - nargs + 1 =? 0); reflexivity).
+      destruct (variadic_arg s vtype (xa - nargs + 1) vargs) as [s1 sv]. cbn [fst] in Hb1.
+      apply Hbody. exact Hb1.
     - repeat match goal with
              | |- context [if ?c then _ else _] => destruct c
              | |- context [popn ?a ?b ?c] => destruct (popn a b c) as [[? ?]|]
